@@ -1076,8 +1076,9 @@ func (e *engine) Shrink(raw json.RawMessage) (out []json.RawMessage) {
 		return n
 	}
 	t := c.Text
-	// drop chunks of the text
-	for size := len(t) / 2; size >= 1; size /= 2 {
+	// drop chunks of the text (not of a text the generator knows to be cut
+	// inside a form: that knowledge does not carry over to another text)
+	for size := len(t) / 2; size >= 1 && !c.MustFail; size /= 2 {
 		for lo := 0; lo+size <= len(t); lo += size {
 			n := unpin(c)
 			n.Text = append(append([]byte{}, t[:lo]...), t[lo+size:]...)
